@@ -573,12 +573,7 @@ func init() {
 				l.Transitions += int64(ex.Points)
 			}
 		}
-		enum.Run(r, n, func(idx int64, l *ev.Local) {
-			d := enum.Odo(idx, len(bl), len(exs), len(layouts), len(prefs))
-			for _, wk := range workers {
-				runCase(idx, l, c02Case{layout: layouts[d[2]], existing: exs[d[1]], batch: bl[d[0]], pref: prefs[d[3]], workers: wk}, wk, bound)
-			}
-		})
+		// the small parts run FIRST so that the deadline of the thorough tier never starves them
 		bl1 := batches(len(c02Shapes), bsz-1)
 		n2 := enum.Size(len(bl1), len(exsRunning), 2, len(prefs))
 		enum.Run(r, n2, func(idx int64, l *ev.Local) {
@@ -627,6 +622,12 @@ func init() {
 			l.Transitions += int64(ex.Points)
 		})
 		r.Extra["read_fault_cases"] = n3
+		enum.Run(r, n, func(idx int64, l *ev.Local) {
+			d := enum.Odo(idx, len(bl), len(exs), len(layouts), len(prefs))
+			for _, wk := range workers {
+				runCase(idx, l, c02Case{layout: layouts[d[2]], existing: exs[d[1]], batch: bl[d[0]], pref: prefs[d[3]], workers: wk}, wk, bound)
+			}
+		})
 	})
 }
 
